@@ -1,3 +1,4 @@
 //! Reference models for the tz-rs verification harness.  No dependency on tz-rs.
 pub mod cal;
 pub mod rule;
+pub mod zone;
